@@ -191,8 +191,8 @@ func (e *explorer) pipelineTransition(sd seed, lang string, prefix []op, pre mSt
 }
 
 // explorePipeline: for every language, every operation of the seed's alphabet
-// as the only final pass; with depth 2, additionally every pair (reduced
-// alphabet first, any operation last).
+// as the only final pass; with depth 2, additionally every pair over the
+// reduced alphabet for the languages whose passes change the seed.
 func (e *explorer) explorePipeline(sd seed, depth int) (transitions int) {
 	seedM := fromAST(sd.Build())
 	ops := alphabet(seedM)
@@ -204,6 +204,7 @@ func (e *explorer) explorePipeline(sd seed, depth int) (transitions int) {
 		oi     int
 	}
 	var jobs []job
+	noneCanon := ""
 	for _, lang := range pipelineLangs {
 		base, err, pan := runPipeline(sd, lang, nil)
 		if err != nil || pan != nil {
@@ -247,7 +248,12 @@ func (e *explorer) explorePipeline(sd seed, depth int) (transitions int) {
 		for oi := range ops {
 			jobs = append(jobs, job{lang: lang, pre: pre, strip: strip, oi: oi})
 		}
-		if depth >= 2 {
+		if lang == "none" {
+			noneCanon = refl.Canon(base)
+		}
+		// pairs: only where the language passes did something (otherwise the
+		// chain is the plain layer's), both operations from the reduced alphabet
+		if depth >= 2 && refl.Canon(base) != noneCanon {
 			for ai, a := range ops {
 				if !a.Reduced {
 					continue
@@ -262,7 +268,9 @@ func (e *explorer) explorePipeline(sd seed, depth int) (transitions int) {
 					continue // the first pass changed nothing: covered by depth 1
 				}
 				for oi := range ops {
-					jobs = append(jobs, job{lang: lang, prefix: []op{ops[ai]}, pre: pre1, strip: strip1, oi: oi})
+					if ops[oi].Reduced {
+						jobs = append(jobs, job{lang: lang, prefix: []op{ops[ai]}, pre: pre1, strip: strip1, oi: oi})
+					}
 				}
 			}
 		}
